@@ -110,7 +110,8 @@ def judge(case, part):
         digits = case["int_sweep"]
         low, high = -(10 ** (digits - 1)) + 1, 10**digits - 1
         only = case.get("only")
-        numbers = only if only is not None else range(low, high + 1)
+        # beyond the sweep: numbers around the 32 bit limits and far outside them, which an open ended length admits
+        numbers = only if only is not None else list(range(low, high + 1)) + [2**31 - 1, 2**31, -(2**31), -(2**31) - 1, 40012345678, -40012345678, 10**18, -(10**18)]
         validated = field.validated
         width = decl.get("width")
         mismatches = 0
@@ -306,6 +307,8 @@ def decimal_cases(tier):
                 cells += ["1.000000000000001", "0.1234567890123456", "0.9999999999999999", "1234567890123.25"]  # 16 significant digits: still exact as a number cell
             # single mutations that must be rejected
             cells += ["1" + dec_sep + "5" + dec_sep + "0", "1a", "a", "-", "1" + dec_sep + "5x"]
+            # scientific notation is a way to write a number, too; a torn exponent is none
+            cells += ["1e2", "2" + dec_sep + "5E+3", "5e-05", "-1" + dec_sep + "5e1", "12E0", "1e", "e5", "1e+", "1e2e3", "1e2" + dec_sep + "5"]
             if thou_sep:
                 cells.append("1" + dec_sep + "5" + thou_sep + "000")
             if other_sep != thou_sep:
